@@ -240,6 +240,48 @@ def main():
             c.violation("C18:%s:order-dependent" % fam,
                         "same import graph, different import-list order, different result",
                         {"case": case, "observed": obs, "other_case": other[0][0], "other_observed": other[0][1]})
+    # ---- ImportLayouts.tla: directory trees that are not flat; the same relative import string names different directories for
+    #      different importers, so every import must be resolved against the directory of its own importer
+    fl = os.path.join(sc, "layouts.ndjson")
+    tlc_eval("ImportLayouts", timeout=600, workdir=scratch("verif-c18-tlcl-"), env={"VERIF_OUT": fl})
+    layouts = [json.loads(l) for l in open(fl) if l.strip()]
+    c.cov["tlc_nested_layouts"] = len(layouts)
+    c.cov["tlc_nested_layouts_ambiguous_strings"] = sum(1 for x in layouts if x["ambiguous"])
+
+    def layout_work(arg):
+        li, x, rev = arg
+        root = os.path.join(sc, "lay%d-%d" % (li, rev))
+        for d in x["dirs"]:
+            pd = os.path.join(root, d["path"])
+            os.makedirs(pd, exist_ok=True)
+            edges = sorted([e for e in x["edges"] if e["from"] == d["path"]], key=lambda e: e["str"], reverse=bool(rev))
+            man = "namespace: %s\n" % d["ns"]
+            if edges:
+                man += "imports:\n" + "".join("  - %s\n" % e["str"] for e in edges)
+            if d["path"] == "app":
+                man += "json:\n  outputDir: out\n"
+            open(os.path.join(pd, "_package.yml"), "w").write(man)
+            fields = "".join("    f%d: %s.T%s\n" % (k, e["to_ns"], e["to_ns"]) for k, e in enumerate(edges))
+            open(os.path.join(pd, "m.yml"), "w").write("T%s: !record\n  fields:\n    x: int\n%s" % (d["ns"], fields))
+        rc, out, err = run([yardl, "generate"], cwd=os.path.join(root, "app"), env=yardl_env(home), timeout=30)
+        names = None
+        mj = os.path.join(root, "app", "out", "model.json")
+        if rc == 0 and os.path.exists(mj):
+            names = [n["name"] for n in json.load(open(mj))["namespaces"]]
+        shutil.rmtree(root, ignore_errors=True)
+        return x, rev, rc, err[-400:], names
+
+    for x, rev, rc, err, names in pmap(layout_work, [(i, x, r) for i, x in enumerate(layouts) for r in (0, 1)]):
+        c.cov["traces_validated_against_impl"] += 1
+        c.count(("layout", json.dumps(x["edges"], sort_keys=True), rev), nontrivial=x["ambiguous"])
+        replay = {"layout": x, "import_lists_reversed": bool(rev), "exit": rc, "stderr": err, "namespaces": names}
+        desc = ", ".join("%s imports %s" % (e["from"], e["str"]) for e in sorted(x["edges"], key=lambda e: (e["from"], e["str"])))
+        if rc not in (0, 1):
+            c.violation("C18:layout:crash", "exit status %s on the directory layout [%s]" % (rc, desc), replay)
+        elif rc != 0:
+            c.violation("C18:layout:rejected-valid", "a valid package tree [%s] is rejected: %s" % (desc, err[-200:]), replay)
+        elif names is None or sorted(names) != sorted(x["loaded"]) or len(names) != len(set(names)):
+            c.violation("C18:layout:wrong-packages", "directory layout [%s]: loaded namespaces %s, reachable packages %s" % (desc, names, sorted(x["loaded"])), replay)
     if drift:
         print("MODEL-DRIFT: %d of %d hook traces of collectPackages differ from the behaviour of Imports.tla "
               "(spec needs updating; not a verdict)" % (drift, len(results)))
